@@ -58,4 +58,20 @@ PROPS = {
              "and never-written elements. Distinct = hash of the decoded history.",
         assumptions=COMMON_ASSUME + ["strings never contain NUL (HDF5 variable length C strings cannot hold it)"],
     ),
+    "C13": dict(
+        bin="h_array", sub="c13", level="exploration",
+        technique="rapidcheck-generated append/modify/delete/reopen histories on dimension descriptors compared with a model list after every step",
+        level_text="generated histories of append (all five kinds, also the deprecated create* spellings), setters with legal and illegal "
+                   "values, deleteDimensions, reopen, and writes through an alias dimension and through its array; after every step the "
+                   "descriptor list is compared with a model (count, gap-free indices, kind, every parameter) and the invariants ticks "
+                   "ascending / interval > 0 / alias mirrors array are checked on the observed state",
+        level_note="a call that throws must leave the model (and therefore the observed list) unchanged; a call that succeeds updates the model "
+                   "with the values given, so an accepted illegal value fails the invariant; offset none is treated as 0.0",
+        quick=dict(cases=400, size=300, workers=16, timeout=1800),
+        thorough=dict(cases=10000, size=300, workers=16, timeout=14400),
+        rule="tape -> element type, rank, up to 30 operations {append x5 kinds, modify parameter of descriptor k, deleteDimensions, reopen ro/rw, "
+             "array-side writes, late alias}. Non-trivial: at least 3 descriptors of at least 2 kinds with a modification after a reopen, or an "
+             "alias written from both sides. Distinct = hash of the decoded history.",
+        assumptions=COMMON_ASSUME,
+    ),
 }
